@@ -162,6 +162,65 @@ Proof.
 Qed.
 Print Assumptions C46_oracle_holds_on_model.
 
+(** ---------------------------------------------------------------- audit follow-up: ANY separator
+    Known finding (separator-hex-or-dash): the property says "any custom
+    separator", but a separator that starts with a hex digit makes formatted AS
+    text ambiguous, and one that contains '-' breaks ISD-AS text.  pkg/addr
+    (faithfully modelled) then parses its own output to a DIFFERENT value: *)
+Theorem C46_separator_ambiguous : exists l a w,
+  a <= max_as /\ parse_formatted_as l (format_as l a) = Some w /\ w <> a.
+Proof.
+  exists [WithSeparator [48]], 10203, 4295098371.
+  split; [vm_compute; discriminate|]. split; [vm_compute; reflexivity|discriminate].
+Qed.
+Print Assumptions C46_separator_ambiguous.
+
+(** ... or rejects it (separator "-", a SCION-only AS) *)
+Theorem C46_separator_dash_refuted : exists l ia,
+  ia < 2 ^ 64 /\ parse_formatted_ia l (format_ia l ia) <> Some ia.
+Proof.
+  exists [WithSeparator [45]], 0x1ff0000000110. split; [reflexivity|vm_compute; discriminate].
+Qed.
+Print Assumptions C46_separator_dash_refuted.
+
+(** the oracle of [check] (round trip demanded for every separator) fails on the faithful model there *)
+Theorem C46_oracle_refuted : exists k l v,
+  fmt_oracle k l v (fmt_k k l v) (parse_k k l (fmt_k k l v)) = false.
+Proof. exists KFAs, [WithSeparator [48]], 10203. vm_compute. reflexivity. Qed.
+Print Assumptions C46_oracle_refuted.
+
+(** Outside that class — separator (after defaulting) whose first byte is not a
+    hex digit, and for ISD-AS text no '-' in it; nothing else is assumed — every
+    value of every codec round-trips, with any option list. *)
+Theorem C46_roundtrip_except_known : forall k l v,
+  in_range k v = true -> sep_good k l = true -> parse_k k l (fmt_k k l v) = Some v.
+Proof. exact roundtrip_k_weak. Qed.
+Print Assumptions C46_roundtrip_except_known.
+
+Theorem C46_separators_except_known : forall l isd a ia,
+  isd <= max_isd -> a <= max_as -> ia < 2 ^ 64 ->
+  parse_formatted_isd l (format_isd l isd) = Some isd /\
+  (head_ok (o_sep (apply_opts l)) -> parse_formatted_as l (format_as l a) = Some a) /\
+  (head_ok (o_sep (apply_opts l)) -> ~ In 45 (o_sep (apply_opts l)) ->
+   parse_formatted_ia l (format_ia l ia) = Some ia).
+Proof.
+  intros l isd a ia Hi Ha Hia. repeat split.
+  - now apply parse_format_isd.
+  - intros Hh. now apply parse_format_as.
+  - intros Hh Hd. now apply parse_format_ia_weak.
+Qed.
+Print Assumptions C46_separators_except_known.
+
+(** the separators of the earlier theorems are in the good class *)
+Theorem C46_sep_ok_is_good : forall k l, sep_ok (o_sep (apply_opts l)) = true -> sep_good k l = true.
+Proof. exact sep_ok_good. Qed.
+Print Assumptions C46_sep_ok_is_good.
+
+Theorem C46_oracle_holds_on_model_except_known : forall k l v, sep_good k l = true ->
+  fmt_oracle k l v (fmt_k k l v) (parse_k k l (fmt_k k l v)) = true.
+Proof. exact fmt_oracle_good. Qed.
+Print Assumptions C46_oracle_holds_on_model_except_known.
+
 (** Non-vacuity: concrete values through every codec, with the liberties and the rejections. *)
 Example C46_example :
   fmt_ia 0x1ff0000000110 = s2l "1-ff00:0:110" /\
